@@ -245,3 +245,14 @@ Proof. discriminate. Qed.
 Corollary commit_pos_injective : forall l1 l2, small (length l1) -> small (length l2) ->
   leaves_ok l1 -> leaves_ok l2 -> commit_root TPos2 l1 = commit_root TPos2 l2 -> l1 = l2.
 Proof. apply commit_root_injective; [exact pos2_inj | exact pos2_not_addlen | exact pos2_not_const]. Qed.
+
+Lemma ped_inj : forall a b c d, TPed a b = TPed c d -> a = c /\ b = d.
+Proof. intros a b c d H. injection H. auto. Qed.
+Lemma ped_not_addlen : forall a b c n, TPed a b <> TAddLen c n.
+Proof. discriminate. Qed.
+Lemma ped_not_const : forall a b z, TPed a b <> TC z.
+Proof. discriminate. Qed.
+
+Corollary commit_ped_injective : forall l1 l2, small (length l1) -> small (length l2) ->
+  leaves_ok l1 -> leaves_ok l2 -> commit_root TPed l1 = commit_root TPed l2 -> l1 = l2.
+Proof. apply commit_root_injective; [exact ped_inj | exact ped_not_addlen | exact ped_not_const]. Qed.
